@@ -18,10 +18,60 @@ def run(chk):
     ]
     ok = chk.check_theorems()
     rc.run_runner_check(chk, "C04", "proj_C04", OPTS, theorems_ok=ok)
+    values_part(chk)
     if ok:
         import source_tie
         source_tie.runner_ties(chk)
 
 
+def values_verdict(c, r):
+    k, ma = c["fails"], c["max_attempts"]
+    inv = min(k + 1, ma)
+    what = None
+    if r["invocations"] != inv or len(r["classified"]) != inv:
+        what = f"{r['invocations']} invocations and {len(r['classified'])} result classifications, expected {inv} of each"
+    elif k < ma:
+        want = ["return", "'ok'"] if c["mode"] == "call" else ["outcome", True, "'ok'", None, inv, "none"]
+        if r["end"] != want:
+            what = f"ended with {r['end']}, expected {want}"
+    else:
+        lv = "none" if c["value"] == "none" else "value"
+        want = ["exhausted", "MAX_ATTEMPTS_GLOBAL", ma, lv] if c["mode"] == "call" else ["outcome", False, "None", "MAX_ATTEMPTS_GLOBAL", ma, lv]
+        if r["end"] != want:
+            what = f"ended with {r['end']}, expected {want}"
+    if what is None:
+        return None
+    return (f"{'async ' if c['async'] else ''}{c['mode']}() with the first {k} attempts returning {c['value']!r} (classified TRANSIENT by the "
+            f"result classifier, max_attempts={ma}): {what}")
+
+
+def values_part(chk, modes=("call",)):
+    """results without an identity of their own (None, 0, 0.0, "", [], False): the result classifier is asked about every returned
+    value, a value it calls a failure is retried, call() returns the first value it calls a success and the exhaustion error /
+    outcome carries the last failed value itself"""
+    import common
+    cases = [{"value": v, "fails": k, "max_attempts": 3, "async": a, "mode": m}
+             for v in ("none", "zero", "zerof", "empty", "list", "false", "obj") for k in (0, 1, 2, 3, 5) for a in (False, True)
+             for m in modes]
+    res = common.run_driver("c04_values_driver", cases)
+    bad = [(c, r, m) for c, r in zip(cases, res) for m in [values_verdict(c, r)] if m]
+    chk.coverage["values_without_identity"] = {"cases": len(cases), "values": ["None", "0", "0.0", "''", "[]", "False", "object()"],
+                                               "note": "oracle only: the model identifies a value by the attempt that produced it"}
+    chk.coverage["evaluations"] = chk.coverage.get("evaluations", 0) + len(cases)
+    if bad:
+        c, r, m = bad[0]
+        chk.violation({"kind": "oracle", "part": "values", "what": m, "values_case": c, "observed": r, "driver": "c04_values_driver",
+                       "also_failing": len(bad)})
+
+
 def replay(path):
+    import json
+    r = json.load(open(path))
+    if "values_case" in r:
+        import common
+        o = common.run_driver("c04_values_driver", [r["values_case"]])[0]
+        m = values_verdict(r["values_case"], o)
+        print(o)
+        print("oracle:", m or "holds")
+        return 1 if m else 0
     return rc.replay_runner(path)
